@@ -321,6 +321,25 @@ func (persistComp) Gen(rng *rand.Rand, tier string) [][]string {
 		nh, steps, nTick = 600, 80, 60
 	}
 	var hs [][]string
+	// directed: many keys (enumeration after a reopen must visit every one of them exactly once, however the engine pages
+	// through its files); only three of them are read back after every operation
+	nBig := 300
+	if tier == "thorough" {
+		nBig = 1100
+	}
+	for d, kind := range []string{"db", "serial", "db"} {
+		shards := []int{0, 0, 3}[d]
+		h := []string{fmt.Sprintf("begin persist kind=%s shards=%d batch=%d delay=3600 keys=1000,%04x,%04x", kind, shards, pick(rng, 7, 64, 1000), 0x1000+nBig/2, 0x1000+nBig-1)}
+		for i := 0; i < nBig; i++ {
+			h = append(h, fmt.Sprintf("put %04x %02x%02x", 0x1000+i, i%251, d))
+		}
+		h = append(h, "reopen", "range")
+		for i := 0; i < nBig; i += 97 {
+			h = append(h, fmt.Sprintf("rm %04x", 0x1000+i))
+		}
+		h = append(h, fmt.Sprintf("put %04x ffff", 0x1000+nBig), "reopen", "range")
+		hs = append(hs, h)
+	}
 	// directed: writes issued while a timer flush of leveldb.DB is between its LevelDB write and the batch reset
 	nDirected := 2
 	if tier == "thorough" {
